@@ -89,8 +89,8 @@ def apiMulticast (msg : Bytes) (ty : Int) (level : Option Int) : NetM Bool := do
   nodeWrite F (lvl2addr lvl) TX_MULTICAST
 
 /-- `RF24Network.write(RF24NetworkFrame(RF24NetworkHeader(to, type), message), traffic_direct)`;
-    returns the result and the caller's frame object as it is when the call returns (it *is* the
-    node's `frame_buf` from then on) -/
+    returns the result and the caller's frame object as it is when the call returns (the node works
+    on a private copy) -/
 def apiNetWrite (to : Int) (ty : Int) (msg : Bytes) (direct : Nat) : NetM (Bool × Frame) := do
   let id ← takeId
   let hdr : Header := { fromNode := 0o7777, toNode := maskInt to 0xFFF, frameId := id,
@@ -99,14 +99,16 @@ def apiNetWrite (to : Int) (ty : Int) (msg : Bytes) (direct : Nat) : NetM (Bool 
   let ok ← nodeValidateMsgLen msg.length
   let msg := if ok then msg else msg.take MAX_FRAG_SIZE
   let n ← getNode
-  modNode fun nd => { nd with frameBuf := { header := { hdr with fromNode := n.a.addr }, message := msg } }
-  -- `_pre_write`
+  let caller : Frame := { header := { hdr with fromNode := n.a.addr }, message := msg }
+  -- `_pre_write`: `self.frame_buf = RF24NetworkFrame(); self.frame_buf.unpack(frame.pack())`
+  let _ ← takeId
+  modNode fun nd => { nd with frameBuf := wireCopy caller }
   let r ← if direct ≠ AUTO_ROUTING then
       let sendType := if hdr.toNode = direct then TX_PHYSICAL
         else if hdr.toNode = NETWORK_MULTICAST_ADDR then TX_MULTICAST else TX_LOGICAL
       nodeWrite F direct sendType
     else nodeWrite F hdr.toNode TX_NORMAL
-  return (r, (← getNode).frameBuf)
+  return (r, caller)
 
 /-! ### mesh -/
 
